@@ -41,6 +41,10 @@ def prefix_lengths(doc, quick):
         if ch in b'{}[],:"' and len(s) < 90:
             s.update({i, i + 1})
     s.update(range(0, n, max(1, n // 24)))
+    # cuts in the middle of every multi-byte character and of every escape sequence
+    for i, ch in enumerate(doc):
+        if ch >= 0x80 or ch == 0x5C:
+            s.update({i, i + 1, i + 2})
     return sorted(x for x in s if 0 <= x < n)
 
 
@@ -48,8 +52,8 @@ def planted(task):
     """worker: plant prefixes of the real index documents, then open / repair"""
     from harness import cacherun
 
-    drv = cacherun.Driver(task["level"], task["fs"], task["seed"])
-    out = {"task": {k: task[k] for k in ("level", "fs", "where", "seed")}, "bad": [], "n": 0, "lens": []}
+    drv = cacherun.Driver(task["level"], task["fs"], task["seed"], nonascii=task.get("nonascii", False))
+    out = {"task": {k: task.get(k) for k in ("level", "fs", "where", "seed", "nonascii")}, "bad": [], "n": 0, "lens": []}
     try:
         ref = drv.reference(1024)
         # the real documents: produced by an uninterrupted creation on this very product
@@ -226,13 +230,16 @@ def body(chk):
     for ci, (level, fs, where) in enumerate(combos):
         for part in range(parts):
             tasks.append(dict(level=level, fs=fs, where=where, seed=chk.seed + ci, quick=quick, part=part, parts=parts))
+    for ci, (level, fs, where) in enumerate([("1.5", "local", "local"), ("1.1", "local", "adjacent"), ("1.5", "memory", "both")]):
+        for part in range(parts):  # products below non-ASCII paths (the path is stored in the document)
+            tasks.append(dict(level=level, fs=fs, where=where, seed=chk.seed + 20 + ci, quick=quick, part=part, parts=parts, nonascii=True))
     results = checklib.pmap(planted, tasks, chk.scratch)
     npl = 0
     for res in results:
         t = res["task"]
         npl += res["n"]
         for k in res["lens"]:
-            chk.count(1, f"{t['level']}:{t['fs']}:{t['where']}:{k}")
+            chk.count(1, f"{t['level']}:{t['fs']}:{t['where']}:{t.get('nonascii')}:{k}")
         seen = set()
         for what, k, msg in res["bad"]:
             if what in seen:
